@@ -271,7 +271,10 @@ def cases(tier, seed):
     for W in (0, 1, T.US_DAY - 1, T.US_DAY, T.MAX_WALL, T.MAX_WALL - T.US_DAY):
         for spec in (None, "UTC", 3600, -3600, "Pacific/Kiritimati", "America/New_York"):
             out.append({"stream": "dt-unary-edge", "fn": "dt_unary", "args": [spec, W, 0]})
-            out.append({"stream": "dt-binary-edge", "fn": "dt_binary", "args": [spec, W, 0, "UTC" if spec is not None else None, T.MAX_WALL // 2, 0, W % 5]})
+            # binary operators: keep the UTC instant inside years 1..9999 (outside, Interval.__init__ -> precise_diff raises OverflowError on the
+            # pure-Python backend only: that is C06's function, not an accessor of this property)
+            Wb = min(max(W, 2 * T.US_DAY), T.MAX_WALL - 2 * T.US_DAY)
+            out.append({"stream": "dt-binary-edge", "fn": "dt_binary", "args": [spec, Wb, 0, "UTC" if spec is not None else None, T.MAX_WALL // 2, 0, W % 5]})
     # constructors
     for i in range(300 if tier == "quick" else 5000):
         spec = [zs[rnd.randrange(len(zs))], FIXED[rnd.randrange(len(FIXED))]][i % 2]
